@@ -436,6 +436,63 @@ def rule_count(repo, tier):
 
 
 @guarded
+def rule_kentries(repo, tier):
+    """point2pixel multiplies by the WHOLE intrinsic matrix (points @ K^T, then the homogeneous division); its inverse pixel2point must use every
+    entry of the first two rows of K that can be non-zero for a pinhole camera: fx, fy, cx, cy and the skew K[0,1].  An inverse that ignores an
+    entry the forward map uses is an inverse only for matrices where that entry is zero."""
+    res = RuleResult('C18.KENT', 'pixel2point reads every entry of the upper two rows of K that point2pixel uses (fx, skew, cx; fy, cy)', floor=1)
+    fwd = repo.func(GEO, 'point2pixel')
+    inv = repo.func(GEO, 'pixel2point')
+    pk = 'intrinsics'
+    full = any(isinstance(n, ast.BinOp) and isinstance(n.op, ast.MatMult) and any(isinstance(x, ast.Name) and x.id == pk for x in ast.walk(n)) for n in ast.walk(fwd.node))
+    used = set()
+    for n in ast.walk(inv.node):
+        if isinstance(n, ast.Subscript) and dotted(n.value) == pk and isinstance(n.slice, ast.Tuple):
+            idx = [x.value for x in n.slice.elts if isinstance(x, ast.Constant) and isinstance(x.value, int)]
+            if len(idx) >= 2:
+                used.add((idx[0], idx[1]))
+        elif isinstance(n, ast.BinOp) and isinstance(n.op, ast.MatMult) and any(isinstance(x, ast.Name) and x.id == pk for x in ast.walk(n)):
+            used |= {(0, 0), (0, 1), (0, 2), (1, 1), (1, 2)}
+        elif isinstance(n, ast.Call) and (dotted(n.func) or '').split('.')[-1] in ('inv', 'inverse', 'solve', 'pinv') and any(isinstance(x, ast.Name) and x.id == pk for x in ast.walk(n)):
+            used |= {(0, 0), (0, 1), (0, 2), (1, 1), (1, 2)}
+    want = {(0, 0), (0, 1), (0, 2), (1, 1), (1, 2)} if full else set()
+    missing = sorted(want - used)
+    res.inst({'forward uses the whole matrix': full, 'entries read by the inverse': sorted(used), 'missing': missing}, 'K')
+    if not full:
+        raise AnalysisError('C18.KENT: point2pixel no longer multiplies by the intrinsic matrix')
+    for e in missing:
+        res.add(Finding('C18.KENT', inv, 'pixel2point never reads K[%d,%d] (%s), which point2pixel applies: for intrinsics with that entry non-zero the two are '
+                        'not mutually inverse' % (e[0], e[1], {(0, 1): 'the skew'}.get(e, 'entry')), construct='K entry %d%d' % e))
+    return res
+
+
+@guarded
+def rule_errnorm(repo, tier):
+    """reprojerr is zero EXACTLY for the pixels point2pixel produces: every reduction of the per-component error over the (u, v) axis is a norm of
+    the difference - the components are made non-negative (abs, square, norm) before they are summed.  A signed sum lets errors of opposite sign
+    cancel: a pixel off by (+1, -1) reports 0."""
+    res = RuleResult('C18.NORM', 'reprojerr: every reduced per-pixel error is a norm of the difference (components made non-negative before the reduction)', floor=1)
+    f = repo.func(GEO, 'reprojerr')
+    n = 0
+    for r in [x for x in ast.walk(f.node) if isinstance(x, ast.Return) and x.value is not None]:
+        v = r.value
+        if isinstance(v, ast.Call) and isinstance(v.func, ast.Attribute) and v.func.attr in ('sum', 'mean', 'norm', 'amax', 'max'):
+            n += 1
+            inner = v.func.value
+            positive = v.func.attr in ('norm',) or any(isinstance(c, ast.Call) and isinstance(c.func, ast.Attribute) and c.func.attr in ('abs', 'square', 'norm', 'abs_')
+                                                      for c in ast.walk(inner)) or \
+                any(isinstance(c, ast.Call) and (dotted(c.func) or '').split('.')[-1] in ('abs', 'square', 'norm') for c in ast.walk(inner)) or \
+                any(isinstance(c, ast.BinOp) and isinstance(c.op, ast.Pow) and isinstance(c.right, ast.Constant) and c.right.value in (2, 2.0) for c in ast.walk(inner))
+            res.inst({'function': f.fq, 'reduction': src(v)[:60], 'components non-negative before the reduction': positive}, src(v))
+            if not positive:
+                res.add(Finding('C18.NORM', f, '`%s` sums the signed component errors: errors of opposite sign cancel, so a pixel that is NOT the projection of the '
+                                'point (off by (+1, -1)) gets reprojection error 0; the documentation calls this reduction the L1 norm' % src(v)[:60], node=r))
+    if n == 0:
+        raise AnalysisError('C18.NORM: no reduced return found in reprojerr')
+    return res
+
+
+@guarded
 def rule_rankidx(repo, tier):
     """A tensor used to index the point axis keeps its rank whatever the number of points / occupied voxels is.  An argument-less
     `.squeeze()` removes EVERY singleton axis; applied to an index vector it turns a one-element index into a 0-dim tensor, and indexing with a
@@ -484,4 +541,5 @@ def rules(repo, tier):
     from ..optional import rule_optional
     from ..mode import mode_rules
     from ..callsig import rule_callsig
-    return [rule_idx(repo, tier), rule_sign(repo, tier), rule_fwd(repo, tier), rule_memo18(repo, tier), rule_self(repo, tier), rule_rankidx(repo, tier), rule_count(repo, tier), rule_optional(repo, 'C18.OPT', ['pypose.function.geometry'])] + mode_rules(repo, 'C18', ['pypose.function.geometry']) + [rule_callsig(repo, 'C18.SIG', ['pypose.function.geometry'])]
+    from ..docsig import rule_docsig
+    return [rule_idx(repo, tier), rule_sign(repo, tier), rule_fwd(repo, tier), rule_memo18(repo, tier), rule_self(repo, tier), rule_rankidx(repo, tier), rule_count(repo, tier), rule_errnorm(repo, tier), rule_kentries(repo, tier), rule_optional(repo, 'C18.OPT', ['pypose.function.geometry'])] + mode_rules(repo, 'C18', ['pypose.function.geometry']) + [rule_callsig(repo, 'C18.SIG', ['pypose.function.geometry']), rule_docsig(repo, 'C18.DOC', ['pypose.function.geometry'])]
